@@ -27,6 +27,27 @@ of the same name.  The body reads them as ``dtml-var``, ``dtml-if``, entity, ``_
 ``last-nnn``; the model is the documented precedence: the (innermost) element that defines the
 name, else what was visible outside the tag; with ``no_push_item`` only the latter; after the end
 tag only the latter.
+
+Block tags in the body: what the statement says about the body holds wherever in the body a
+variable is read.  In the blocks family other block tags stand between the fields of the record
+(if / elif / else chains over every pair of conditions - an expression or a name; true, false,
+undefined; a sequence variable, an attribute of the element, a prefix alias -, unless, with / let,
+try / except / else / finally with an error unwinding through a with or an inner loop (failing in
+its body, when its sequence is looked up, when it is sorted or reversed), an inner
+dtml-in over another sequence, call, comment); the block prints what its own documentation says
+(the first true section, with sequence-number read inside it) and every read after it - in this
+record and the following ones - keeps its documented value.
+
+Element values and containers: the element may be any object, also None or another false value
+(0, '', False, 0.0), and the sequence may reach the tag as a list, tuple, generator, counting
+iterator, lazy __getitem__/__len__ sequence, list iterator, map object, dictionary view, an
+object that is only iterable, one with the old __getitem__ protocol only, or a deque; the same
+values as the x of objects / mappings and as the keys of 2-tuples.
+
+Long sequences: every position 1..3999 of one sequence is read (number, roman, Roman, the
+aliases; parity, start / end, length) and compared with the model's numeral writer (two writers,
+cross-checked), batch windows lie around the positions where a numeral changes its shape, whole
+records are read on some hundred elements.
 """
 import itertools
 import zlib
@@ -57,7 +78,27 @@ RULE = ('exhaustive grid: every x-pattern of the stated alphabet for length 0..4
         'no_push_item x prefix x unbatched / size / start+size (thorough: x 12 reading forms); '
         'companion names, presence per element, values with runs, outer values, sort / reverse, '
         'container, tag spelling and an inner loop over the children of the element by hash); '
-        'seeded names cases with names drawn from a grammar of these classes. A case is non-trivial when the '
+        'seeded names cases with names drawn from a grammar of these classes; a blocks family '
+        '(another block tag between the fields of the record: every if chain of one or two '
+        'conditions over 15 conditions - expression / name; true, false, undefined; sequence '
+        'variable, element attribute, alias - with and without else (full product for objects and '
+        'numbers, a third for the other kinds in the quick tier), chains of three by kind of '
+        'condition, unless x condition, 5 with / let, 8 try (an error unwinding through with, and '
+        'through an inner dtml-in at four stages), 5 inner dtml-in variants, call, '
+        'comment x kind {obj, int, map, tup_obj, str, val}; position of the block, a second block, '
+        'options, container, spelling, gates, reading order, batch window by hash); a values '
+        'family (every pattern of length 0..3 over {None, 0, \'\', False, \'a\'} (thorough: 10 values, '
+        'length 4 over 5; half of the pairs and of length 4) as the elements x 11 containers '
+        '(+ dict items for pairs), as the x of '
+        'objects / mappings / pairs and every ordered choice of 1..3 of 6 keys (None, 0, \'\', ...) '
+        'for 2-tuples; the ordinary kinds x the 6 further containers x binary patterns 0..3); a '
+        'long family (16 (thorough 96) sequences of 3950..3999 elements - three quarters of them '
+        'exactly 3999 - reading number / roman / Roman / aliases and in a third of them the other '
+        'position variables, kinds x containers x options by hash; batch windows around 25 '
+        'positions where the numeral changes shape (4, 9, 40, 90, 400, 900, 1000, ...) into lazy / '
+        'list / generator / deque / list-iterator sequences; whole records on 61..500 elements); '
+        'seeded wide cases (any scalar element, false x values, every container, blocks, rarely up '
+        'to 400 elements). A case is non-trivial when the '
         'sequence is non-empty or an else block decides the empty case; distinct = distinct '
         '(family, kind, container, options, prefix, form, else, outer, x-pattern, values, window, '
         'spelling, gates, y-pattern, reading order; names family: the whole case)')
@@ -92,6 +133,18 @@ ASSUMPTIONS = [
     '(the documentation spells nnn as a simple name), first/last unbatched only',
     'names family: where the current element lacks a name, the value visible outside the tag (or '
     'nothing) is expected - the tag binds nothing under that name',
+    'blocks family: the text a block prints is modelled from the documentation of if / unless / '
+    'with / let / try / in (first true section; an undefined name is false; an error in a try '
+    'section discards its text; sorting values that do not compare is an error); conditions '
+    'never call anything; dtml-call is generated for the '
+    'HTML spellings only; attributes of the element are used as conditions only where the '
+    'element is pushed',
+    'values family: scalars whose texts are pairwise distinct (None, 0, \'\', False, \'a\', 0.0, '
+    '1, True); elements that are equal as text are interchangeable; such sequences are not '
+    'sorted by item, false x values and arbitrary keys not sorted at all (where None sorts is '
+    'C13); no 2-tuples as plain elements (they are pairs)',
+    'long sequences stay within 3999 elements (the range of roman numerals); letters are read '
+    'but compared for index < 26 only; 2-tuple keys are made distinct beyond 100 elements',
 ]
 SHARD_TIMEOUT = {'quick': 600, 'thorough': 3000}
 NSHARDS = {'quick': 16, 'thorough': 48}
@@ -129,12 +182,15 @@ def containers_for(kind):
     return U.CONTAINERS + (('dictitems',) if U.is_tuple_kind(kind) else ())
 
 
-def vals_for(kind, xs):
+def vals_for(kind, xs, k=0):
     p = U.PART[kind]
     if p == 'int':
         return list(xs)
     if p == 'str':
         return ['v%s' % x for x in xs]
+    if p == 'val':
+        return [U.VALUE_POOL[(zlib.crc32(repr((k, j)).encode()) + x) % len(U.VALUE_POOL)]
+                for j, x in enumerate(xs)]
     return None
 
 
@@ -208,15 +264,23 @@ def nested_cases(tier):
                                    'gkids': (sum(kids) % width) if inner == 'global' else 0}
 
 
-def random_case(rng):
-    kind = rng.choice(U.KINDS)
+def random_case(rng, wide=False):
+    """wide: also any scalar as an element, false values as x, every container, now and then
+    some hundred elements"""
+    kind = rng.choice(U.WIDE_KINDS if wide else U.KINDS)
     n = rng.choice([rng.randint(0, 26), rng.randint(0, 26), rng.randint(27, 60), rng.randint(2, 9)])
+    if wide and rng.random() < 0.015:
+        n = rng.randint(61, 400)
     base = {'mapping': U.PART[kind] == 'map' and rng.random() < 0.7,
             'no_push_item': rng.random() < 0.3, 'prefix': rng.choice(SEED_PREFIXES)}
     opts = dict(base, sort=rng.choice(U.sort_modes(kind, base)), reverse=rng.random() < 0.4,
                 sort_via=rng.choice(('attr', 'attr', 'expr')),
                 reverse_via=rng.choice(('attr', 'attr', 'expr')))
     alpha = rng.choice([(0, 1), (0, 1, 2), ('a', 'b'), ('a', 'B', 'c'), tuple(range(max(n, 1)))])
+    if wide and rng.random() < 0.25:
+        alpha = rng.choice([(None, 0, '', False, 'a'), (None, 'a'), (0, False, 0.0), ('', None)])
+        if opts['sort'] == 'x':
+            opts['sort'] = None                     # where None sorts is not this property's
     xs = []
     while len(xs) < n:                       # runs of equal x with random lengths
         xs += [rng.choice(alpha)] * rng.choice([1, 1, 2, 3, 5])
@@ -228,11 +292,18 @@ def random_case(rng):
     elif p == 'int':
         pool = rng.choice([[0, 1, 2, -1, 10], [0, 1.5, 2.0, 2, -3.25], list(range(n + 2))])
         vals = [rng.choice(pool) for _ in range(n)]
+    elif p == 'val':
+        pool = rng.choice([list(U.VALUE_POOL), [None, 'a'], [None, 0, '', False, 0.0], [None]])
+        vals = [rng.choice(pool) for _ in range(n)]
     else:
         vals = None
-    return {'family': 'flat', 'kind': kind, 'container': rng.choice(containers_for(kind)),
+    conts = containers_for(kind) + (U.MORE_CONTAINERS if wide else ())
+    case = {'family': 'flat', 'kind': kind, 'container': rng.choice(conts),
             'opts': opts, 'xs': xs, 'vals': vals, 'form': rng.choice(FORMS),
             'outer': rng.random() < 0.3, 'else': rng.random() < 0.5}
+    if wide and U.is_tuple_kind(kind) and (n > 100 or rng.random() < 0.2):
+        case['keys'] = ['q%04d' % ((j * 37 + 11) % 1009) for j in range(n)]
+    return case
 
 
 # ---------------------------------------------------------------- partial reads (gates)
@@ -351,10 +422,10 @@ def syntax_cases(tier):
                         yield case
 
 
-def rich_random_case(rng):
+def rich_random_case(rng, wide=False):
     """a seeded case with partial reads, a second run attribute, another reading order and / or
     another tag spelling"""
-    case = random_case(rng)
+    case = random_case(rng, wide)
     kind, opts, n = case['kind'], case['opts'], len(case['xs'])
     hasx = U.has_x(kind, opts)
     todo = [rng.random() < 0.6, hasx and rng.random() < 0.4, rng.random() < 0.3, rng.random() < 0.4]
@@ -380,6 +451,267 @@ def rich_random_case(rng):
         case['form'] = form
         case['syntax'] = {'style': style, 'else': els, 'end': end, 'entity': rng.random() < 0.5,
                           'rich_else': rng.random() < 0.5}
+    return case
+
+
+# ---------------------------------------------------------------- block tags between the reads
+def decorate(case, k, tier, batch_ok=True):
+    """hash-derived spelling / gate / reading order / window of a generated case"""
+    n = len(case['xs'])
+    style = ('dtml', 'dtml', 'comment', 'epfs')[(k >> 3) % 4]
+    if any(style not in U.block_styles(spec) for _, spec in case.get('blocks') or ()):
+        style = 'dtml'
+    form = case['form']
+    if style == 'epfs' and form == 'quoted':
+        form = case['form'] = 'expr'
+    if style != 'dtml' or (k >> 5) & 1:
+        case['syntax'] = {'style': style, 'else': 'plain', 'end': 'plain',
+                          'entity': bool((k >> 6) & 1), 'rich_else': False}
+    if n and (k >> 7) % 4 == 0:
+        gran = ('record', 'field')[(k >> 9) & 1]
+        width = 1 if gran == 'record' else GATE_WIDTH
+        case['gate'] = {'by': 'index', 'gran': gran,
+                        'rows': [bits(k, width, ('blk', p)) for p in range(n)]}
+    if (k >> 10) % 4 == 0:
+        case['perm'] = k % 1000
+    if batch_ok and n >= 2 and (k >> 12) % 4 == 0 and not (
+            case['kind'] == 'map' and not case['opts']['mapping']):
+        case['family'] = 'batch'
+        case['batch'] = ({'size': 2}, {'start': 2, 'size': 2})[(k >> 14) & 1]
+    return case
+
+
+def block_specs(conds):
+    """every block over the conditions defined for a shape: if chains of one and two conditions
+    (full product) and of three (kinds of conditions x 4 hash-derived choices), with and without
+    else; unless over every condition; every variant of the other block tags"""
+    for c1 in conds:
+        for els in (False, True):
+            yield ['if', [c1], els]
+            for c2 in conds:
+                yield ['if', [c1, c2], els]
+    by_type = {t: [c for c in conds if U.cond_type(c) == t] for t in ('expr', 'name')}
+    for types in itertools.product(('expr', 'name'), repeat=3):
+        for els in (False, True):
+            for v in range(4):
+                yield ['if', [by_type[t][h('if3', types, els, v, j) % len(by_type[t])]
+                              for j, t in enumerate(types)], els]
+    for c in conds:
+        yield ['unless', c]
+    for tag, variants in sorted(U.BLOCK_VARIANTS.items()):
+        for v in variants:
+            yield [tag, v]
+    yield ['call']
+    yield ['comment']
+
+
+BLOCK_KINDS = ('obj', 'int', 'map', 'tup_obj', 'str', 'val')
+
+
+def block_cases(tier):
+    """a body with other block tags between the reads of the record: every block spec x kind
+    (the full product of two-condition chains for objects and numbers - an element that is pushed
+    and one that is not -, a third of it for the other kinds), everything else by hash"""
+    top = 3 if tier == 'quick' else 5
+    others = [[t, v] for t, vs in sorted(U.BLOCK_VARIANTS.items()) for v in vs]
+    for ki, kind in enumerate(BLOCK_KINDS):
+        base_sets = [o for o in option_sets(kind) if o['sort'] is None]
+        can_push = any(U.has_x(kind, o) for o in base_sets)
+        conds = list(U.COND_ANY) + (['x', 'id'] if can_push else []) + ['alias']
+        for variant in range(1 if tier == 'quick' else 3):
+            for spec in block_specs(conds):
+                k = h('blocks', kind, variant, spec)
+                if (spec[0] == 'if' and len(spec[1]) == 2 and ki >= 2 and tier == 'quick'
+                        and k % 3):
+                    continue
+                used = set(spec[1]) if spec[0] == 'if' else set(spec[1:2])
+                osets = [o for o in base_sets
+                         if (not used & {'x', 'id'} or (U.has_x(kind, o) and not o['no_push_item']))
+                         and ('alias' not in used or o['prefix'])]
+                opts = osets[(k >> 1) % len(osets)]
+                n = 1 + (k >> 4) % top
+                xs = run_values(k, n)
+                conts = containers_for(kind) + U.MORE_CONTAINERS
+                nfields = 17 + (13 if opts['prefix'] else 0)
+                pos = (0, 0, 2, nfields // 2, nfields - 3, 99)[(k >> 16) % 6]
+                blocks = [[pos, spec]]
+                if (k >> 19) % 3 == 0:       # a second block, of another tag, further on
+                    blocks.append([pos + 1 + (k >> 21) % 9, others[(k >> 25) % len(others)]])
+                case = {'family': 'flat', 'kind': kind,
+                        'container': conts[(k >> 7) % len(conts)], 'opts': opts, 'xs': xs,
+                        'vals': vals_for(kind, xs, k), 'form': FORMS[(k >> 11) % 3],
+                        'outer': bool((k >> 13) & 1), 'else': bool((k >> 14) & 1),
+                        'blocks': blocks}
+                yield decorate(case, h(k, 'deco'), tier)
+
+
+# ---------------------------------------------------------------- element values, containers
+FALSE_ALPHABET = (None, 0, '', False, 'a')
+KEY_POOL = (None, 0, '', 'k', 1.5, -1)          # pairwise distinct as text and as dictionary keys
+
+
+def value_patterns(tier):
+    for n in range(0, 4):
+        yield from itertools.product(FALSE_ALPHABET if tier == 'quick' else U.VALUE_POOL, repeat=n)
+    if tier != 'quick':
+        yield from itertools.product(FALSE_ALPHABET, repeat=4)
+
+
+def values_cases(tier):
+    """None and the other false values as elements, as the x of objects / mappings and as the keys
+    of 2-tuples, through every container; the ordinary kinds through the further containers"""
+    def finish_(case, k, n):
+        kind = case['kind']
+        base = {'mapping': U.PART[kind] == 'map', 'no_push_item': (k >> 3) % 3 == 0,
+                'prefix': (None, 'p')[(k >> 5) & 1]}
+        sorts = case.pop('sorts')
+        modes = [m for m in U.sort_modes(kind, base) if m in sorts]
+        case.update(family='flat', opts=dict(base, sort=modes[(k >> 7) % len(modes)],
+                                              reverse=(k >> 9) % 3 == 0),
+                    form=FORMS[(k >> 11) % 3], outer=bool((k >> 13) & 1))
+        case['else'] = n == 0 or bool((k >> 14) & 1)
+        return decorate(case, h(k, 'deco'), tier)
+
+    for vals in value_patterns(tier):
+        n = len(vals)
+        for cont in U.ALL_CONTAINERS + ('dictitems',):
+            for kind in ('val', 'tup_val'):
+                k = h('values', vals, cont, kind)
+                if kind == 'val' and cont == 'dictitems':
+                    continue
+                if tier == 'quick' and (
+                        (kind == 'tup_val' and cont != 'dictitems' and k % 3) or
+                        (kind == 'val' and n == 3 and k % 2)):
+                    continue            # quick: a sample of the longest patterns / of the pairs
+                if tier != 'quick' and cont != 'dictitems' and k % 2 and (kind == 'tup_val' or n == 4):
+                    continue            # thorough: half of the pairs and of the longest patterns
+                yield finish_({'kind': kind, 'container': cont, 'xs': [0] * n, 'vals': list(vals),
+                               'sorts': (None, 'key')}, k, n)
+    # false values as the x of objects and mappings (no sort: the order of None is not C10's)
+    for xs in value_patterns(tier):
+        if not xs:
+            continue
+        for kind in ('obj', 'map', 'tup_obj'):
+            k = h('false x', xs, kind)
+            conts = U.ALL_CONTAINERS + (('dictitems',) if kind == 'tup_obj' else ())
+            yield finish_({'kind': kind, 'container': conts[(k >> 16) % len(conts)],
+                           'xs': list(xs), 'vals': None, 'sorts': (None,)}, k, len(xs))
+    # any value as the key of a 2-tuple
+    for n in range(1, 4 if tier == 'quick' else 5):
+        for keys in itertools.permutations(KEY_POOL, n):
+            for kind in ('tup_val', 'tup_obj') if tier == 'quick' else ('tup_val', 'tup_obj', 'tup_int'):
+                k = h('keys', keys, kind)
+                conts = U.ALL_CONTAINERS + ('dictitems',)
+                xs = run_values(k, n)
+                yield finish_({'kind': kind, 'container': conts[(k >> 16) % len(conts)],
+                               'xs': xs, 'vals': vals_for(kind, xs, k), 'keys': list(keys),
+                               'sorts': (None,)}, k, n)
+    # the ordinary kinds through the further containers
+    for n in range(0, 4 if tier == 'quick' else 5):
+        for xs in itertools.product((0, 1), repeat=n):
+            for kind in ('obj', 'map', 'tup_obj', 'str', 'int'):
+                for cont in U.MORE_CONTAINERS:
+                    for variant in range(1 if tier == 'quick' else 3):
+                        k = h('containers', xs, kind, cont, variant)
+                        yield finish_({'kind': kind, 'container': cont, 'xs': list(xs),
+                                       'vals': vals_for(kind, xs), 'sorts': (None, 'x', 'key', 'item')},
+                                      k, n)
+
+
+# ---------------------------------------------------------------- long sequences
+ROMAN_ONLY = ['sequence-number', 'sequence-roman', 'sequence-Roman', 'alias:roman', 'alias:Roman',
+              'alias:number']
+POSITION_ONLY = ['sequence-index', 'sequence-number', 'sequence-even', 'sequence-odd',
+                 'if:sequence-even', 'if:sequence-odd', 'sequence-start', 'sequence-end',
+                 'if:sequence-start', 'if:sequence-end', 'sequence-length', 'sequence-letter',
+                 'sequence-Letter', 'alias:index', 'alias:even', 'alias:odd', 'alias:start',
+                 'alias:end', 'alias:length', 'alias:letter']
+ROMAN_TOP = 3999
+LONG_KINDS = ('int', 'obj', 'map', 'str', 'tup_obj', 'val', 'tup_int')
+ROMAN_EDGES = (4, 9, 14, 19, 40, 49, 90, 99, 140, 400, 449, 490, 499, 900, 949, 990, 999, 1000,
+               1444, 1999, 2494, 2999, 3444, 3888, 3990)
+
+
+def long_opts(kind, k):
+    base = {'mapping': U.PART[kind] == 'map', 'no_push_item': (k >> 3) % 4 == 0,
+            'prefix': (None, 'p', 'p', 'X1')[(k >> 5) % 4]}
+    modes = U.sort_modes(kind, base)
+    return dict(base, sort=modes[(k >> 8) % len(modes)] if (k >> 7) & 1 else None,
+                reverse=(k >> 11) % 3 == 0)
+
+
+def long_cases(tier):
+    """long sequences, reading the cheap variables only: every position 1..3999 of one sequence
+    (roman numerals, numbers, parity, ends), windows around the positions where a numeral changes
+    its shape, whole records for some hundred elements"""
+    nfull = 16 if tier == 'quick' else 96
+    for j in range(nfull):
+        kind = LONG_KINDS[j % len(LONG_KINDS)]
+        k = h('long', j)
+        conts = U.ALL_CONTAINERS + (('dictitems',) if U.is_tuple_kind(kind) else ())
+        only = (ROMAN_ONLY, ROMAN_ONLY + POSITION_ONLY, ROMAN_ONLY)[j % 3]
+        case = {'family': 'flat', 'kind': kind, 'container': conts[(j // 2) % len(conts)],
+                'opts': long_opts(kind, k), 'count': ROMAN_TOP - (0 if j % 4 else (k >> 13) % 50),
+                'only': only, 'form': FORMS[(k >> 14) % 3], 'outer': bool((k >> 16) & 1),
+                'else': bool((k >> 17) & 1)}
+        style = ('dtml', 'comment', 'epfs', 'dtml')[(k >> 18) % 4]
+        if style == 'epfs' and case['form'] == 'quoted':
+            case['form'] = 'expr'
+        case['syntax'] = {'style': style, 'else': 'plain', 'end': 'plain',
+                          'entity': bool((k >> 20) & 1), 'rich_else': False}
+        yield case
+    # windows into a long sequence around the edges
+    for e in ROMAN_EDGES:
+        for ci, cont in enumerate(('lazy', 'list', 'gen', 'deque', 'listiter')):
+            if tier == 'quick' and (e + ci) % 2:
+                continue
+            for variant in range(1 if tier == 'quick' else 4):
+                k = h('window', e, cont, variant)
+                kind = LONG_KINDS[k % len(LONG_KINDS)]
+                opts = dict(long_opts(kind, k >> 3), sort=None)
+                start = max(1, e - 2 - (k >> 20) % 4)
+                size = 8 + (k >> 23) % 8
+                n = min(ROMAN_TOP, start + size + (k >> 26) % 5)
+                batch = ({'start': start, 'size': size} if (k >> 29) & 1
+                         else {'start': start, 'end': min(n, start + size - 1)})
+                yield {'family': 'batch', 'kind': kind, 'container': cont, 'opts': opts,
+                       'count': n, 'only': ROMAN_ONLY + POSITION_ONLY, 'batch': batch,
+                       'form': FORMS[(k >> 14) % 3], 'outer': False, 'else': bool((k >> 17) & 1)}
+    # whole records on some hundred elements
+    for j, n in enumerate((61, 90, 99, 100, 149, 199, 240, 399, 400, 500) if tier == 'quick'
+                          else tuple(range(61, 130)) + tuple(range(130, 1000, 29))):
+        k = h('mid', n)
+        kind = LONG_KINDS[j % len(LONG_KINDS)]
+        conts = U.ALL_CONTAINERS
+        yield {'family': 'flat', 'kind': kind, 'container': conts[(k >> 5) % len(conts)],
+               'opts': long_opts(kind, k >> 9), 'count': n, 'form': FORMS[(k >> 2) % 3],
+               'outer': bool((k >> 24) & 1), 'else': False}
+
+
+def wide_random_case(rng):
+    """a seeded case over the wider alphabets: any scalar as an element, every container, block
+    tags in the body, now and then some hundred elements"""
+    case = rich_random_case(rng, wide=True) if rng.random() < 0.5 else random_case(rng, wide=True)
+    kind, opts = case['kind'], case['opts']
+    n = len(case['xs'])
+    style = (case.get('syntax') or {}).get('style', 'dtml')
+    if n and rng.random() < 0.6:
+        pushes = U.has_x(kind, opts) and not opts['no_push_item']
+        conds = U.conds_for(opts, pushes)
+        blocks = []
+        for _ in range(rng.choice((1, 1, 2, 3))):
+            r = rng.random()
+            if r < 0.6:
+                spec = ['if', [rng.choice(conds) for _ in range(rng.choice((1, 2, 2, 3, 4)))],
+                        rng.random() < 0.5]
+            elif r < 0.7:
+                spec = ['unless', rng.choice(conds)]
+            else:
+                tag = rng.choice(sorted(U.BLOCK_VARIANTS))
+                spec = [tag, rng.choice(U.BLOCK_VARIANTS[tag])]
+            if style in U.block_styles(spec):
+                blocks.append([rng.randrange(0, 45), spec])
+        case['blocks'] = blocks
     return case
 
 
@@ -605,8 +937,13 @@ def run(ctx, spec):
     hz = U.Harness(ctx, HTML)
     T = hz.tally
     sampled = 0
+    if U.roman_selfcheck(ROMAN_TOP):
+        T.c('model self-check: the two roman writers agree on 1..3999')
+    else:
+        ctx.inconclusive('the two roman numeral writers of the model disagree')
     for fam, gen in (('grid', grid_cases), ('batch', batch_cases), ('nested', nested_cases),
-                     ('gated', gated_cases), ('syntax', syntax_cases), ('names', names_cases)):
+                     ('gated', gated_cases), ('syntax', syntax_cases), ('names', names_cases),
+                     ('blocks', block_cases), ('values', values_cases), ('long', long_cases)):
         for i, case in enumerate(gen(ctx.tier)):
             if i % ctx.nshards != ctx.shard:
                 continue
@@ -622,7 +959,10 @@ def run(ctx, spec):
     for _ in range((2400 if ctx.tier == 'quick' else 36000) // ctx.nshards):
         T.c('cases:seeded names')
         hz.evaluate(random_names_case(ctx.rng), classify)
-    if ctx.shard < 6:
+    for _ in range((800 if ctx.tier == 'quick' else 8000) // ctx.nshards):
+        T.c('cases:seeded wide')
+        hz.evaluate(wide_random_case(ctx.rng), classify)
+    if ctx.shard < 9:
         for case in ({'family': 'flat', 'kind': 'tup_obj', 'container': 'gen', 'form': 'name',
                       'opts': {'mapping': False, 'no_push_item': False, 'prefix': 'p', 'sort': 'x',
                                'reverse': True}, 'xs': [1, 0, 1], 'vals': None, 'outer': False,
@@ -646,6 +986,20 @@ def run(ctx, spec):
                       'syntax': {'style': 'epfs', 'else': 'named', 'end': 'named',
                                  'entity': False, 'rich_else': True}},
                      next(names_cases('quick')),
+                     {'family': 'flat', 'kind': 'obj', 'container': 'gen', 'form': 'name',
+                      'opts': {'mapping': False, 'no_push_item': False, 'prefix': 'p',
+                               'sort': None, 'reverse': False}, 'xs': [0, 1], 'vals': None,
+                      'outer': False, 'else': False,
+                      'blocks': [[2, ['if', ['e0', 'x'], True]], [20, ['try', 'raise']]]},
+                     {'family': 'flat', 'kind': 'val', 'container': 'dictvalues', 'form': 'name',
+                      'opts': {'mapping': False, 'no_push_item': False, 'prefix': None,
+                               'sort': None, 'reverse': False}, 'xs': [0, 0, 0],
+                      'vals': [None, '', 0], 'outer': False, 'else': True},
+                     {'family': 'batch', 'kind': 'int', 'container': 'lazy', 'form': 'name',
+                      'opts': {'mapping': False, 'no_push_item': False, 'prefix': 'p',
+                               'sort': None, 'reverse': False}, 'count': 3999,
+                      'only': ROMAN_ONLY, 'batch': {'start': 3986, 'size': 6}, 'outer': False,
+                      'else': False},
                      )[ctx.shard:ctx.shard + 1]:
             ctx.sample(sample_of(hz, case))
             sampled += 1
@@ -668,14 +1022,16 @@ def sample_of(hz, case):
             None, U.names_outer(case), seq=U.make_container(case['container'], elements))
         return {'case': case, 'source': U.show(src, 900), 'sequence': repr(elements)[:300],
                 'outer namespace': U.names_outer(case), 'output': U.show(out, 1200)}
+    given, case = case, U.expand_case(case)
     src, fields = U.flat_source(case)
     extras, kwargs = U.case_extras(case, [lab for lab, _ in fields])
-    elements, _ = U.build_elements(case['kind'], case['xs'], case.get('vals'), extras)
+    elements, _ = U.build_elements(case['kind'], case['xs'], case.get('vals'), extras,
+                                   case.get('keys'))
     ns = U.outer_namespace(case['opts']) if case.get('outer') else {}
     style = (case.get('syntax') or {}).get('style', 'dtml')
     out = hz.template(src, style)(None, ns, seq=U.make_container(case['container'], elements),
                                   **kwargs)
-    return {'case': case, 'source': U.show(src, 900), 'sequence': repr(elements)[:300],
+    return {'case': given, 'source': U.show(src, 900), 'sequence': repr(elements)[:300],
             'output': U.show(out, 1200)}
 
 
@@ -763,6 +1119,41 @@ def finish(agg):
             if not any(k.startswith('%s/%s/' % (var_, cls))
                        for k in t.get('named attribute variables', {})):
                 inc.append('%s-nnn never compared for a name of class %s' % (var_, cls))
+    # block tags between the reads, arbitrary scalars as elements / keys, further containers,
+    # long sequences
+    for k in ('cases:blocks', 'cases:values', 'cases:long', 'cases:seeded wide',
+              'cases with block tags between the reads', 'reads after a block tag in the body',
+              'cases with arbitrary values as the keys of 2-tuples',
+              'cases reading a part of the variables only',
+              'model self-check: the two roman writers agree on 1..3999',
+              'sequences with every numeral 1..3999 compared'):
+        if not c.get(k):
+            inc.append('monitor never evaluated: ' + k)
+    bc = t.get('blocks compared', {})
+    for code in (['unless expr', 'unless name', 'call', 'comment'] +
+                 ['%s %s' % (tag, v) for tag, vs in sorted(U.BLOCK_VARIANTS.items()) for v in vs]):
+        if not bc.get(code):
+            inc.append('block tag never rendered between the reads: ' + code)
+    chains = t.get('if chains: kinds of the conditions and branch taken', {})
+    for ln in (1, 2, 3):
+        for types in itertools.product(('expr', 'name'), repeat=ln):
+            for els in ('', '+else'):
+                code = '>'.join(types) + els
+                branches = ['abc'[j] for j in range(ln)] + ['z' if els else '-']
+                for b in (branches if ln < 3 else branches[:1]):
+                    if not chains.get('%s:%s' % (code, b)):
+                        inc.append('if chain never compared: %s taking branch %s' % (code, b))
+    sc = t.get('scalar elements compared', {})
+    for cont in U.ALL_CONTAINERS + ('dictitems',):
+        for v in (None, 0, '', False):
+            for where in ('first', 'later'):
+                if not sc.get('%s/%r/%s' % (cont, v, where)):
+                    inc.append('false value never compared as an element: %r %s in %s'
+                               % (v, where, cont))
+    hundreds = t.get('roman numerals compared beyond 60, by hundred', {})
+    for hnd in range(40):
+        if hundreds.get(str(hnd), 0) < 39:
+            inc.append('roman numerals of %d..%d not all compared' % (max(hnd * 100, 61), hnd * 100 + 99))
     # what the engine anchors used to vouch for, demanded at the output level instead
     codes = list(t.get('option subsets', {}))
     for pos, letters, what in ((0, 'M', 'mapping'), (1, 'N', 'no_push_item'), (2, 'P', 'prefix'),
@@ -776,9 +1167,9 @@ def finish(agg):
     # engine internals: diagnosis only (a renamed helper must not mask an evaluated oracle)
     unreached = [label for label, _, _ in ANCHORS if not c.get('reach:' + label)]
     kc = t.get('kind x container', {})
-    kinds = ('obj', 'map', 'tup_obj', 'str', 'int')
+    kinds = ('obj', 'map', 'tup_obj', 'str', 'int', 'val')
     for kind in kinds:
-        for cont in U.CONTAINERS:
+        for cont in U.ALL_CONTAINERS:
             if not kc.get('%s/%s' % (kind, cont)):
                 inc.append('kind/container never rendered: %s/%s' % (kind, cont))
     tier = agg['tier']
@@ -789,6 +1180,15 @@ def finish(agg):
                                   'x alphabet': '{0,1}' if tier == 'quick' else '{0,1,2} (length 6: {0,1})',
                                   'x patterns': sum(1 for _ in patterns(tier)),
                                   'option subsets': len(t.get('option subsets', {}))},
+                         'blocks family': {'conditions': len(U.CONDS),
+                                           'block codes compared': len(t.get('blocks compared', {})),
+                                           'if chains x branch': len(chains)},
+                         'values family': {'value alphabet': [repr(v) for v in (
+                                               FALSE_ALPHABET if tier == 'quick' else U.VALUE_POOL)],
+                                           'containers': list(U.ALL_CONTAINERS) + ['dictitems']},
+                         'long family': {'top': ROMAN_TOP, 'edges': list(ROMAN_EDGES),
+                                         'sequences with every numeral 1..3999 compared':
+                                             c.get('sequences with every numeral 1..3999 compared', 0)},
                          'names family': {'name pool': len(NAME_POOL), 'ways to expose a name': len(NAME_KINDS),
                                           'reading forms': len(U.NAME_FORMS),
                                           'classes x shapes seen on a pushed element':
